@@ -3,10 +3,10 @@ from bundlelib import *
 from sxglib import oracle_tables
 import re
 
-THEOREMS = ['C06.authority_invariant', 'C06.authority_points_to_own_leaf', 'C06.honest_verifies', 'C06.verify_sound', 'C06.subset_checked_before_trusted', 'C06.signedMessage_injective']
+THEOREMS = ['C06.authority_invariant', 'C06.authority_points_to_own_leaf', 'C06.honest_verifies', 'C06.honest_verifies_all', 'C06.honest_verifies_after_roundtrip', 'C06.verify_sound', 'C06.subset_checked_before_trusted', 'C06.signedMessage_injective']
 TRUSTED = ['ECDSA and SHA-256 are parameters; every signature verdict the model uses comes from the independent strict-DER oracle (oracle.sig) on the message the MODEL computes, so a signer/verifier that builds another message disagrees',
            'x509 VerifyHostname (CanSignForURL) is the parameter canSign, answered by oracle.cansign', 'net/url.Parse of the validity URL (oracle.url)']
-ASSUMPTIONS = ['sequences of signers use certificates with disjoint coverage (a second signer covering an exchange that already carries a Digest header fails by design: expected error on both sides)',
+ASSUMPTIONS = ['a second signer covering an exchange that already carries a Digest header fails by design (expected error on both sides; disjointness of successful sequences is a theorem)',
                'the signing loop of cmd/sign-bundle `addSignature` (package main) is replicated in the harness from library calls']
 RULE = ('staged: bundles (b1/b2) x certificates/hosts x P-256/P-384 x record sizes x sequences of 1..3 signers (real ECDSA signing by the harness), model recomputes the signed bundle from the signature bytes (bsig.signstep), '
         'verify (NewVerifier + VerifyExchange for every exchange) before and after a bundle write/read cycle at t in {date-1, date, mid, expires, expires+1}, and mutants: body / status / header edits of covered exchanges, '
@@ -120,10 +120,19 @@ def run(ctx):
                 bb = bytearray(body); bb[rng.randrange(len(bb))] ^= 1 << rng.randrange(8)
                 variants.append('~'.join([f[0], f[1], f[2], hexs(bytes(bb))]))
                 variants.append('~'.join([f[0], f[1], f[2], hexs(body[:-1])]))
+                # the encoded body cut at structural points (nothing, record-size field only, first record) and doubled
+                for cut in (0, 4, 8, 9, 8 + 16, len(body) // 2):
+                    if cut < len(body):
+                        variants.append('~'.join([f[0], f[1], f[2], hexs(body[:cut])]))
+                variants.append('~'.join([f[0], f[1], f[2], hexs(body + body)]))
             variants.append('~'.join([f[0], '404', f[2], f[3]]))
             variants.append('~'.join([f[0], f[1], f[2] + ';' + hexs(b'X-Injected') + '=' + hexs(b'1'), f[3]]))
             variants.append('~'.join([f[0], f[1], f[2].replace(hexs(b'text/plain'), hexs(b'text/html')), f[3]]))
             variants.append('~'.join([hexs(unhex(f[0]) + b'2'), f[1], f[2], f[3]]))
+            for nm in (b'Digest', b'Content-Encoding'):
+                kept = ';'.join(x for x in f[2].split(';') if not x.lower().startswith(hexs(nm).lower()))
+                variants.append('~'.join([f[0], f[1], kept or '.', f[3]]))
+            variants.append('~'.join([f[0], f[1], ';'.join((x.split('=')[0] + '=' + hexs(b'mi-sha256-03=AAAA')) if x.lower().startswith(hexs(b'Digest').lower()) else x for x in f[2].split(';')), f[3]]))
             for v in variants:
                 muts.append((' '.join(p[:4] + [','.join(exs[:i] + [v] + exs[i + 1:])]), t_ok))
         # signatures section edits
